@@ -57,6 +57,15 @@ def run(ctx):
             t = rng.choice([0.3, 1.0, 3.0, 8.0]) * rng.choice([1, -1])
             accuracy = rng.choice([1e-3, 1e-6, 1e-9])
             expansion = rng.choice([30, 60])
+            if case % 10 == 9:
+                # ... and the time puts the argument of the Bessel coefficients on the first zero of J_k for an even k:
+                # an odd term (zero by parity) is followed by an even term whose coefficient vanishes, long before
+                # the series has converged
+                from scipy.special import jn_zeros
+                kz = rng.choice([4, 6, 8])
+                t = float(jn_zeros(kz, 1)[0]) / (rad / 0.9875) * rng.choice([1, -1])
+                accuracy = 1e-3
+                expansion = 60
         H0 = H - e0 * numpy.eye(len(dets))
         x = float(numpy.linalg.norm(t * H0, 2))
         desc = {"algo": algo, "norb": norb, "route": route, "sectors": sorted(w.sectors()), "t": t, "accuracy": accuracy,
@@ -90,7 +99,7 @@ def run(ctx):
                 val = numpy.linalg.norm(current) * abs(coeff)
                 if abs(val - accuracy) <= 1e-6 * accuracy:
                     borderline = True
-                tests[k] = int(val < accuracy)
+                tests[k] = int(val < accuracy and k > abs(ascale * t))
         if borderline:
             ctx.count("borderline-skipped")
             continue
